@@ -190,6 +190,12 @@ func (repo *Repository) PreviousHash(hash bitcoin.Hash32) (*bitcoin.Hash32, int)
 
 	at := branch.AtHeight(height - 1)
 	if at == nil {
+		// The previous header has been pruned from memory, but this header still links to it.
+		if current := branch.AtHeight(height); current != nil && height > 0 {
+			previousHash := current.Header.PrevBlock
+			return &previousHash, height - 1
+		}
+
 		return nil, -1
 	}
 
